@@ -717,7 +717,10 @@ func (g *gen) assignStmt() {
 // assigned to a variable of the constant's own default type, and converted
 // explicitly ("v = uint8(128)") otherwise.
 func (g *gen) assigned(t string, e expr) string {
-	if e.isConst && isNum(t) && t != "int" && t != "float64" {
+	// Ego-flavoured programs (never compared with Go, only with other Ego
+	// runs) keep the bare constant: under strict and relaxed checking it must
+	// adapt to the variable's type, which C02 and C04 rely on.
+	if !g.ego && e.isConst && isNum(t) && t != "int" && t != "float64" {
 		return t + "(" + e.s + ")"
 	}
 	return e.s
